@@ -91,8 +91,8 @@ fn options(root: &Path, opts: &Value) -> LsmtkOptions {
 }
 
 enum Db {
-    Kvs(KeyValueStore),
-    Tree(LsmTree),
+    Kvs(Box<KeyValueStore>),
+    Tree(Box<LsmTree>),
     Closed,
 }
 
@@ -107,6 +107,8 @@ pub struct Exec {
     mode: String,
     /// manifest edits already reported, per fragment file name
     mani_seen: std::collections::HashMap<String, usize>,
+    /// scan cursors held open across later operations (C07); they borrow the boxed store
+    held: std::collections::HashMap<u64, Box<dyn Cursor>>,
 }
 
 /// eight columns of a digest as [hi16, lo16] pairs (TLC integers are 32-bit)
@@ -147,9 +149,9 @@ impl Exec {
     fn open(&mut self) -> Result<(), String> {
         let o = options(&self.root, &self.opts);
         self.db = if self.mode == "kvs" {
-            Db::Kvs(KeyValueStore::open(o).map_err(|e| err_string(&e))?)
+            Db::Kvs(Box::new(KeyValueStore::open(o).map_err(|e| err_string(&e))?))
         } else {
-            Db::Tree(LsmTree::open(o).map_err(|e| err_string(&e))?)
+            Db::Tree(Box::new(LsmTree::open(o).map_err(|e| err_string(&e))?))
         };
         Ok(())
     }
@@ -443,6 +445,7 @@ impl Exec {
                 ev.insert("did".into(), json!(did));
             }
             "reopen" => {
+                self.held.clear();
                 self.db = Db::Closed;
                 self.open()?;
                 ev.insert("ev".into(), json!("reopen"));
@@ -462,6 +465,57 @@ impl Exec {
                 };
                 ev.insert("ev".into(), json!("verify"));
                 ev.insert("verdict".into(), json!(verdict));
+            }
+            "hold" => {
+                // ["hold", id, lo, hi]: open a scan and keep the cursor
+                let id = op[1].as_u64().unwrap();
+                let lo = bound(&self.keys, &op[2]);
+                let hi = bound(&self.keys, &op[3]);
+                let c: Box<dyn Cursor + '_> = match &self.db {
+                    Db::Kvs(s) => Box::new(s.range_scan(&lo, &hi).map_err(|e| err_string(&e))?),
+                    Db::Tree(t) => Box::new(t.range_scan(&lo, &hi).map_err(|e| err_string(&e))?),
+                    Db::Closed => return Err("closed".into()),
+                };
+                // SAFETY: the store is boxed and outlives the cursor: "reopen" drops held cursors first
+                let c: Box<dyn Cursor + 'static> = unsafe { std::mem::transmute(c) };
+                self.held.insert(id, c);
+                ev.insert("ev".into(), json!("hold"));
+                ev.insert("id".into(), json!(id));
+                ev.insert("lo".into(), op[2].clone());
+                ev.insert("hi".into(), op[3].clone());
+            }
+            "step" => {
+                // ["step", id, [calls...]] on a held cursor
+                let id = op[1].as_u64().unwrap();
+                let calls = op[2].as_array().unwrap().clone();
+                let keys = &self.keys;
+                let Some(c) = self.held.get_mut(&id) else { return Err("no such held cursor".into()) };
+                let mut out = vec![];
+                for call in calls.iter() {
+                    let r = match call[0].as_str().unwrap() {
+                        "first" => c.seek_to_first(),
+                        "last" => c.seek_to_last(),
+                        "next" => c.next(),
+                        "prev" => c.prev(),
+                        "seek" => c.seek(&keys.bytes(call[1].as_i64().unwrap())),
+                        x => tool_error(&format!("call {x}")),
+                    };
+                    r.map_err(|e| err_string(&e))?;
+                    let o = match c.key() {
+                        None => [0, 0, if c.value().is_some() { -3 } else { 0 }],
+                        Some(kr) => [keys.index(kr.key), kr.timestamp as i64, c.value().map(value_id).unwrap_or(0)],
+                    };
+                    out.push(o);
+                }
+                ev.insert("ev".into(), json!("step"));
+                ev.insert("id".into(), json!(id));
+                ev.insert("calls".into(), op[2].clone());
+                ev.insert("obs".into(), json!(out));
+            }
+            "drop" => {
+                self.held.remove(&op[1].as_u64().unwrap());
+                ev.insert("ev".into(), json!("drop"));
+                ev.insert("id".into(), op[1].clone());
             }
             "scan" => {
                 // ["scan", lo, hi, [calls...]]
@@ -511,6 +565,7 @@ pub fn run_history(doc: &Value, root: &Path, out: &mut dyn Write, run_id: u64) -
         ingest_counter: 0,
         mode: doc["mode"].as_str().unwrap_or("kvs").to_string(),
         mani_seen: Default::default(),
+        held: Default::default(),
     };
     let mut n = 0u64;
     let mut emit = |ev: serde_json::Map<String, Value>, out: &mut dyn Write| {
@@ -549,7 +604,7 @@ pub fn run_history(doc: &Value, root: &Path, out: &mut dyn Write, run_id: u64) -
         crate::shimmark::mark(&json!({"op": "begin", "i": i, "opv": op}));
         let r = catch_unwind(AssertUnwindSafe(|| {
             ex.step(op, &mut ev)?;
-            if ev.get("ev").and_then(|x| x.as_str()) != Some("scanprog") {
+            if !matches!(ev.get("ev").and_then(|x| x.as_str()), Some("scanprog") | Some("hold") | Some("step") | Some("drop")) {
                 ex.observe(&mut ev)?;
             }
             Ok::<(), String>(())
@@ -595,6 +650,7 @@ pub fn run_history(doc: &Value, root: &Path, out: &mut dyn Write, run_id: u64) -
             break;
         }
     }
+    ex.held.clear();
     ex.db = Db::Closed;
     crate::shimmark::mark(&json!({"op": "close"}));
     (n, aborted)
@@ -618,6 +674,7 @@ pub fn recover(args: &[String]) -> ! {
         ingest_counter: 0,
         mode: doc["mode"].as_str().unwrap_or("kvs").to_string(),
         mani_seen: Default::default(),
+        held: Default::default(),
     };
     let mut ev = serde_json::Map::new();
     let r = catch_unwind(AssertUnwindSafe(|| ex.open().and_then(|_| ex.observe(&mut ev))));
